@@ -33,7 +33,25 @@ def _labels(paths):
     return lab
 
 
-def execute_run(run, scdir, idx, note_fd, out_name="out.pqr"):
+class _NoMonitor:
+    """Stand-in when a run needs no step counting and no code faults."""
+    fired = ()
+    n_line = 0
+    n_start = 0
+    foreign_in_window = {}
+
+    def start(self):
+        pass
+
+    def stop(self):
+        pass
+
+    def step(self):
+        return 0
+
+
+def execute_run(run, scdir, idx, note_fd, out_name="out.pqr", outdir=None, use_monitor=True,
+                ns_cache=None):
     """One pdb2pqr invocation under seams + monitor.  Returns an observation dict."""
     from sim import monitor, seams
 
@@ -41,7 +59,7 @@ def execute_run(run, scdir, idx, note_fd, out_name="out.pqr"):
     entry = run.get("entry", "run_pdb2pqr")
     faults = run.get("faults") or []
     indir = os.path.join(scdir, f"in-{idx}")
-    outdir = os.path.join(scdir, "out")
+    outdir = outdir or os.path.join(scdir, "out")
     argv, paths = corpus.materialise(cfg, indir, outdir, out_name)
     pkg = world.REPO_PKG_DIR
     datdir = os.path.join(pkg, "dat")
@@ -76,8 +94,11 @@ def execute_run(run, scdir, idx, note_fd, out_name="out.pqr"):
     need_lines = bool(run.get("profile")) or any(
         f["k"] in ("exc", "kill") and f.get("event") != "PY_START" for f in code_faults) or any(
         f["k"] == "stage" and f["when"] == "return" for f in code_faults)
-    mon = monitor.RunMonitor(pkg, seam, code_faults, record_lines=bool(run.get("profile")),
-                             death_fd=note_fd, lines=need_lines)
+    if use_monitor or code_faults or run.get("profile"):
+        mon = monitor.RunMonitor(pkg, seam, code_faults, record_lines=bool(run.get("profile")),
+                                 death_fd=note_fd, lines=need_lines)
+    else:
+        mon = _NoMonitor()
     seam.seq_source = mon.step
     if entry == "cli":
         logging.disable(logging.NOTSET)
@@ -98,7 +119,7 @@ def execute_run(run, scdir, idx, note_fd, out_name="out.pqr"):
             etype = type(exc).__name__ if exc is not None else None
             etext = str(exc)[:300] if exc is not None else None
         else:
-            outcome, etype, etext = runner.call_entry(entry, argv)
+            outcome, etype, etext = runner.call_entry(entry, argv, ns_cache)
     finally:
         mon.stop()
         net.uninstall()
